@@ -110,6 +110,19 @@ func (w *World) performDNS(o *op, now time.Duration) {
 		w.stat("fault.dns.empty")
 	default:
 		res.err = errDNS
+		if len(args) > 0 {
+			// the error classes a real resolver reports
+			de := &net.DNSError{Err: "verif: scripted resolver failure", Name: o.key, Server: "192.0.2.53:53"}
+			switch args[0] {
+			case "notfound":
+				de.Err, de.IsNotFound = "no such host", true
+			case "timeout":
+				de.Err, de.IsTimeout, de.IsTemporary = "i/o timeout", true, true
+			case "temporary":
+				de.Err, de.IsTemporary = "server misbehaving", true
+			}
+			res.err = de
+		}
 		w.stat("fault.dns.error")
 	}
 	rec.Names = res.names
